@@ -229,7 +229,46 @@ def r17_6(ctx):
     ctx.ob("R17.6", "inherited-default-is-innermost-binding", ok, "scopes are searched innermost first; the first binding of the empty prefix decides; none = no default namespace")
 
 
+def r17_7(ctx):
+    """(a) `find_uri(name)`: the innermost scope that binds the prefix decides - the walk stops there whether or not the binding
+    equals the name's namespace (a shadowed outer binding of the same prefix is NOT in force);
+    (b) NamespaceMap::insert(name) records the name's namespace as a binding, `Some(ns)`, whatever it is - `None` is the
+    representation of an un-binding and would make the prefix look undeclared to find_uri"""
+    key, pcs = nfq.cells(ctx, AREA, "XmlSerializer<Wr>::find_uri")
+    fe = nfq.feasible(pcs)
+    bad = None
+    hit = 0
+    for pc in fe:
+        bound = [v for g, v in pc["guards"].items() if re.fullmatch(r"item\.get\(p1\.prefix\) matches Some\(Some\(_\)\)(#\d+)?", g)]
+        t = nfq.texts(pc)
+        if not any(x.startswith("loop-begin") and "rev()" in x for x in t):
+            bad = "find_uri is not a walk over the scopes, innermost first, that can stop: %s" % t[:2]
+            continue
+        if bound == [True]:
+            hit += 1
+            eq = [v for g, v in pc["guards"].items() if "== p1.ns)" in g or g.endswith("matches p1.ns")]
+            if not any(x.startswith("loop-end(break") for x in t):
+                bad = "the walk goes on past a scope that binds the prefix: an outer binding that an inner scope has shadowed is taken to be in force"
+            elif len(eq) != 1 or str(pc["ret"]) != ("true" if eq[0] else "false"):
+                bad = "at the innermost binding the answer is %s, not whether that binding equals the name's namespace" % pc["ret"]
+        elif bound == [False]:
+            if not any(x.startswith("loop-end(end") for x in t) or str(pc["ret"]) != "false":
+                bad = "a scope without a binding for the prefix does not simply pass the question outwards"
+    ctx.ob("R17.7", "find_uri-innermost-binding-decides", bad is None and hit >= 2, bad or "the walk breaks at the first scope with a binding; the answer is the comparison made there", "xml5ever serialize find_uri")
+    key, pcs = nfq.cells(ctx, "xml_tree_builder", "NamespaceMap::insert")
+    bad = None
+    k = 0
+    for pc in nfq.feasible(pcs):
+        ins = [args for a, args in pc["actions"] if a == "self.scope.insert"]
+        k += len(ins)
+        if len(ins) != 1 or not str(ins[0][1]).startswith("Some(") or "p1.ns" not in str(ins[0][1]):
+            bad = "NamespaceMap::insert stores %s for the name's namespace on a path (%s): not always the binding Some(ns)" % ([str(x)[:40] for x in ins[0]] if ins else "nothing", list(pc["guards"])[:2])
+    ctx.ob("R17.7", "namespace-map-insert-records-a-binding", bad is None and k >= 1, bad or "insert(name) stores Some(name.ns) under name.prefix on every path", "xml5ever tree_builder NamespaceMap::insert")
+
+
 def run(ctx):
+    ctx.rule("R17.7", "find_uri: the innermost binding of a prefix decides; NamespaceMap::insert always records a binding")
+    ctx.guard("R17.7", "scopes", lambda: r17_7(ctx))
     ctx.rule("R17.6", "an unprefixed element in no namespace un-declares an inherited default namespace")
     ctx.guard("R17.6", "undeclare", lambda: r17_6(ctx))
     ctx.rule("R17.1", "in start_elem nothing that can register a namespace follows the loop writing the xmlns declarations")
